@@ -26,7 +26,10 @@ def step(w, op, prop, strict_others=False):
     """Apply one op.  Raises TViolation.  Returns a short tag for statistics."""
     kind = op[0]
     # table ids come from the generator's picture of the world; an id that does not exist here is skipped
-    tids = [op[1]] if kind != "d_concat" else list(op[1])
+    if kind == "ctor":
+        tids = []
+    else:
+        tids = [op[1]] if kind != "d_concat" else list(op[1])
     if kind == "d_add":
         tids.append(op[2])
     if any((not isinstance(t, int)) or t >= len(w.real) for t in tids):
@@ -93,7 +96,7 @@ def step(w, op, prop, strict_others=False):
             return "skipped"
         kd = w.kinds[tid].get(col)
         if (kd == "i" and not (isinstance(value, int) and not isinstance(value, bool))) or (kd == "f" and not isinstance(value, float)) \
-                or (kd in ("s", "o") and not isinstance(value, str)):
+                or (kd in ("s", "o", "u") and not isinstance(value, str)):
             return "skipped"
         how, exp = _exp_resolve(m, row)
         if how == "skip":
@@ -122,7 +125,7 @@ def step(w, op, prop, strict_others=False):
             return "setcell_keyerror"
         if exc is not None:
             raise TViolation(prop + ".write_raises", "%s raised %s: %s (index column %s)" % (where, type(exc).__name__, exc, m.data[m.index]))
-        m.data[col][exp] = value
+        m.data[col][exp] = m.clip(col, value)
         if col == m.index:
             w.taint_sharers(tid)
         _after_mutation(w, prop, tid, where)
@@ -132,10 +135,10 @@ def step(w, op, prop, strict_others=False):
         t, m = w.real[tid], w.model[tid]
         if len(values) != m.n():
             return "skipped"
-        arr = np_col(ckind, values)
+        arr = np_col("s" if ckind == "u" else ckind, values)
         where = "table #%d %s %r" % (tid, "t[col] = array" if style == "item" else "t.col = array", col)
         existing = col in m.cols
-        if existing and w.kinds[tid].get(col) != ckind:
+        if existing and w.kinds[tid].get(col) != ckind and not (w.kinds[tid].get(col) == "u" and ckind == "s"):
             return "skipped"            # an array of another type would be cast by numpy: not what this op means
         if fk is not None and existing and isinstance(t._data[col], FaultyArray):
             _Plan.countdown = fk
@@ -156,7 +159,7 @@ def step(w, op, prop, strict_others=False):
         if exc is not None:
             raise TViolation(prop + ".setcol_raises", "%s raised %s: %s" % (where, type(exc).__name__, exc))
         if existing:
-            m.data[col] = list(values)
+            m.data[col] = [m.clip(col, v) for v in values]
             if col == m.index:
                 w.taint_sharers(tid)
         else:
@@ -167,6 +170,81 @@ def step(w, op, prop, strict_others=False):
                 t._data[col] = as_faulty(t._data[col])
         _after_mutation(w, prop, tid, where)
         return "setcol_index" if col == m.index else ("setcol" if existing else "newcol")
+    if kind == "setslice":
+        # several cells of one column at once: t[col, slice] = values, t[col, [positions]] = values, t[col, 'a':'b'] = values
+        _, tid, col, sel, values = op
+        t, m = w.real[tid], w.model[tid]
+        if col not in m.cols:
+            return "skipped"
+        kd = w.kinds[tid].get(col)
+        msel = model_sel(sel)
+        try:
+            idx = m.select1(msel)
+        except Exception:
+            return "skipped"
+        if len(idx) != len(values) or len(set(idx)) != len(idx) or not idx:
+            return "skipped"
+        for v in values:
+            if (kd == "i" and not (isinstance(v, int) and not isinstance(v, bool))) or (kd == "f" and not isinstance(v, float)) \
+                    or (kd in ("s", "o", "u") and not isinstance(v, str)):
+                return "skipped"
+        arg = np_sel(sel)
+        where = "table #%d t[%r, %r] = %r" % (tid, col, arg, list(values))
+        val, exc = call(lambda: t.__setitem__((col, arg), list(values) if kd in ("s", "o", "u") else np.array(values)))
+        if exc is not None:
+            raise TViolation(prop + ".write_raises", "%s raised %s: %s" % (where, type(exc).__name__, exc))
+        for i, v in zip(idx, values):
+            m.data[col][i] = m.clip(col, v)
+        if col == m.index:
+            w.taint_sharers(tid)
+        _after_mutation(w, prop, tid, where)
+        return "setslice_index" if col == m.index else "setslice"
+    if kind == "ctor":
+        # the checked constructor: must either raise ValueError or return a table that satisfies the invariants
+        _, spec, variant = op
+        cols = [c[0] for c in spec["cols"]]
+        data = {name: np_col(k, vals) for name, k, vals in spec["cols"]}
+        for k, v in spec.get("scalars", ()):
+            from .world import entry_value
+            data[k] = entry_value(v)
+        index = spec["index"]
+        col_names = list(cols)
+        expect_error = False
+        if variant == "index_not_listed":
+            col_names = [c for c in cols if c != index]            # the index is a key of the data, but not a listed column
+            expect_error = True
+        elif variant == "index_is_scalar":
+            col_names = [c for c in cols if c != index]
+            data[index] = "TWISS"
+            expect_error = True
+        elif variant == "index_absent":
+            index = "nosuchcolumn"
+            expect_error = True
+        elif variant == "ragged" and cols:
+            data[cols[-1]] = np.concatenate([data[cols[-1]], data[cols[-1]][:1]]) if len(data[cols[-1]]) else np_col("f", [1.0])
+            expect_error = True
+        elif variant == "not_array" and cols:
+            data[cols[-1]] = list(spec["cols"][-1][2])
+            expect_error = True
+        if not col_names:
+            return "skipped"
+        where = "Table(data, col_names=%s, index=%r) [%s]" % (col_names, index, variant)
+        val, exc = call(lambda: w.xd.Table(data, col_names=col_names, index=index))
+        if exc is None:
+            # whatever was accepted must be a well-formed table
+            k = w.add_derived(val, MTable(list(val._col_names), {c: [] for c in val._col_names}, val._index, {}), {})
+            try:
+                w.check_invariants(prop, k, where)
+            finally:
+                w.pop_last()
+            if expect_error:
+                raise TViolation(prop + ".ctor_accepts", "%s returned a table although the arguments are inconsistent" % where)
+            return "ctor_ok"
+        if not expect_error:
+            raise TViolation(prop + ".ctor_raises", "%s raised %s: %s for consistent arguments" % (where, type(exc).__name__, exc))
+        if not isinstance(exc, ValueError):
+            raise TViolation(prop + ".ctor_error_type", "%s raised %s: %s instead of ValueError" % (where, type(exc).__name__, exc))
+        return "ctor_rejected"
     if kind == "delcol":
         _, tid, col, how = op
         t, m = w.real[tid], w.model[tid]
@@ -207,6 +285,8 @@ def step(w, op, prop, strict_others=False):
         m.cols.remove(m.index)
         m.cols.append(m.index)
         m.data[m.index] = list(values)
+        m.width.pop(m.index, None)          # the new index column is the assigned (object) array
+        w.kinds[tid][m.index] = "s"
         _after_mutation(w, prop, tid, where)
         return "reindex"
     # ---------------------------------------------------------------- selection (C08)
